@@ -229,7 +229,7 @@ class StabilizerTableau(TableauBase):
         :return: True if the tableau is symplectic; False if it is not
         :rtype: bool
         """
-        return sfu.is_stabilizer(self._table)
+        return sfu.is_symplectic_self_orthogonal(self._table)
 
     def _reset(self, new_table, new_phase):
         new_n_qubits = int(new_table.shape[0])
